@@ -317,6 +317,7 @@ def persistent_state(ck, rule):
                             tgt = t.value
                 if isinstance(tgt, ast.Attribute) and isinstance(tgt.value, ast.Name) and tgt.value.id == m.self_name:
                     writes.append((cls, mangle(tgt.attr, cls.name), m, n))
+    seen_memo = set()
     # module-level objects written in worker-reachable code are worker-persistent state as well
     from .c10 import _is_module_level
     for f in fns:
@@ -346,6 +347,16 @@ def persistent_state(ck, rule):
                     and isinstance(node.func.value, ast.Name) and _is_module_level(f, node.func.value.id):
                 name = node.func.value.id
             if name:
+                users = [g for g in fns if g.module is f.module and not g.is_lambda and any(
+                    isinstance(x, ast.Name) and x.id == name for x in ast.walk(g.node))]
+                mi = E.memo_idiom(p, f, name) if users == [f] else None
+                if mi is not None and not mi[0]:
+                    if (name, f.qualname) not in seen_memo:
+                        seen_memo.add((name, f.qualname))
+                        ck.ok(rule, f"{f.module.name.split('.')[-1]}.{name}@{short(f)}:memo", where(f, node),
+                              f"`{name}` is a memo whose key ({mi[1]}) covers every input of the cached value: what it returns does not "
+                              "depend on what was asked before", mi[2])
+                    continue
                 reads = [x for g in fns if g.module is f.module and not g.is_lambda for x in ast.walk(g.node)
                          if isinstance(x, ast.Name) and x.id == name and isinstance(x.ctx, ast.Load)]
                 ck.violation(rule, f"{f.module.name.split('.')[-1]}.{name}@{short(f)}", where(f, node),
@@ -366,6 +377,26 @@ def persistent_state(ck, rule):
         cls = p.classes[cq]
         store_stmts = [stmt for _, _, stmt in ws]
         n_reads = 0
+        # a memo (self.<attr>[K] = E, asked with the same K) whose key covers every input of E is not state in the sense of this
+        # clause: what it returns does not depend on the calls before; one whose key leaves an input out is reported as such
+        src_attr = "__" + attr[len("_" + cls.name + "__"):] if attr.startswith("_" + cls.name + "__") else attr
+        users = [f for f in fns if not f.is_lambda and f.name not in ("__init__", "__post_init__") and any(
+            isinstance(x, ast.Attribute) and x.attr == src_attr and isinstance(x.value, ast.Name) and x.value.id == f.self_name
+            for x in ast.walk(f.node))]
+        if len(users) == 1:
+            mi = E.memo_idiom(p, users[0], f"{users[0].self_name}.{src_attr}")
+            if mi is not None:
+                f0 = users[0]
+                if not mi[0]:
+                    ck.ok(rule, f"{cls.name}.{attr}@{short(f0)}:memo", f0.where,
+                          f"`self.{src_attr}` is a memo whose key ({mi[1]}) covers every input of the cached value", mi[2])
+                else:
+                    ck.violation(rule, f"{cls.name}.{attr}@{short(f0)}:memo-key", f0.where,
+                                 f"`self.{src_attr}` remembers `{mi[2]}` under the key ({mi[1]}), which leaves out {', '.join(mi[0])}: "
+                                 "a later call that agrees in the key but not in those inputs is answered with the earlier result "
+                                 "(the object lives for the whole run and serves every query of a worker)",
+                                 found=f"key ({mi[1]})", required="every input of the cached value is part of the key")
+                continue
         for f in fns:
             if f.is_lambda:
                 continue
@@ -501,6 +532,14 @@ def cpus_flow(ck):
     fn, call, mapname, worker_lambda, worker = parallel_map_site(ctx)
     table = {"numberOfCpus": "num_cpus", "disableProgressBar": "disable"}
     seen = {k: 0 for k in table}
+    # a private helper whose result is handed over as that keyword (and nowhere else) is part of the keyword's expression
+    via_helper = {k: set() for k in table.values()}
+    for k in call.keywords:
+        if k.arg in via_helper:
+            for c0 in [x for x in ast.walk(k.value) if isinstance(x, ast.Call)]:
+                for cal in ctx.cg.resolve_call(fn, c0):
+                    if cal.kind == "fn" and cal.fn.name.startswith("_") and len(ctx.cg.sites_calling(cal.fn)) == 1:
+                        via_helper[k.arg].add(cal.fn.qualname)
     for f in ctx.p.nontest_functions():
         if not f.module.name.startswith("src.") or f.module.name == "src.args" or f.is_lambda:
             continue
@@ -509,7 +548,9 @@ def cpus_flow(ck):
                 if ctx.p.enclosing_function(f.module, node) is not f:
                     continue
                 seen[node.attr] += 1
-                ok = any(k.arg == table[node.attr] and k.value is node for k in call.keywords) and f is fn
+                ok = (any(k.arg == table[node.attr] and k.value is node for k in call.keywords) and f is fn) or \
+                    f.qualname in via_helper[table[node.attr]] or \
+                    (f is fn and any(k.arg == table[node.attr] and any(x is node for x in ast.walk(k.value)) for k in call.keywords))
                 ck.judge(ok, "C09.4", f"{short(f)}:{node.attr}", where(f, node),
                          f"args.{node.attr} is used only as `{table[node.attr]}=` of the parallel map",
                          found=_stmt_text(f, node)[:140], required=f"{mapname}(..., {table[node.attr]}=self.args.{node.attr})")
@@ -574,6 +615,8 @@ def shared_inputs(ck, rule):
                                  found=ast.unparse(c)[:100])
         for attr, stmt in E.attribute_stores(f):
             rt = ctx.t.type_of(f, attr.value)
+            if f.name in ("__init__", "__post_init__") and isinstance(attr.value, ast.Name) and attr.value.id == f.self_name:
+                continue                  # a constructor filling in its own new object
             if isinstance(rt, Inst) and rt.cls in (om, pw):
                 ck.violation(rule, short(f) + ":store:" + attr.attr, where(f, stmt), "store into a shared input object",
                              found=ast.unparse(stmt)[:100])
